@@ -16,5 +16,5 @@ lane() { name="$1"; shift; items=(); for p in "$@"; do for d in seeded/$p*; do s
 lane L1 C01 C02 & lane L2 C03 C04 & lane L3 C05 C06 & lane L4 C07 C20 & lane L5 C08 C09 & lane L6 C10 C19 & lane L7 C11 C17 & lane L8 C12 & lane L9 C13 & lane L10 C14 C18 & lane L11 C15 C16 &
 wait
 # seeds that are another property's business
-tools/seedlane.sh X1 quick C11h@C15:$PWD/seeded/C11h/patch.diff C11p@C15:$PWD/seeded/C11p/patch.diff C11r@C12:$PWD/seeded/C11r/patch.diff C18n@C16:$PWD/seeded/C18n/patch.diff C11y@C12:$PWD/seeded/C11y/patch.diff > /dev/null 2>&1
+tools/seedlane.sh X1 quick C11h@C15:$PWD/seeded/C11h/patch.diff C11p@C15:$PWD/seeded/C11p/patch.diff C11r@C12:$PWD/seeded/C11r/patch.diff C18n@C16:$PWD/seeded/C18n/patch.diff C11y@C12:$PWD/seeded/C11y/patch.diff C12aa@C16:$PWD/seeded/C12aa/patch.diff > /dev/null 2>&1
 python3 tools/seedmeta.py quick | tail -3
